@@ -371,7 +371,12 @@ def gen_node(rng, depth=2, route="potable", reg0=False, positive=False, smooth=F
     return {"k": "trans", "f": gen_node(rng, depth - 1, route, reg0, False, smooth, forms, tables, kinds, rmax + 2.0), "x": x}
   if k == "ranges":
     n = rng.choice([1, 2, 2, 3, 4])
-    starts = sorted(set([rng.choice([0.0, 0.0, round(rng.uniform(0.1, 1.0), 2)])] + [round(rng.uniform(0.5, rmax * 0.8), rng.choice([1, 2, 3])) for _ in range(n - 1)]))
+    if rng.random() < 0.35:
+      # starts from a small lattice, so that ranges at different nesting levels share a start (with either marker)
+      lattice = [0.0, 0.5, 1.0, 1.5, 2.0, 3.0]
+      starts = sorted(set(rng.choice(lattice) for _ in range(n)))
+    else:
+      starts = sorted(set([rng.choice([0.0, 0.0, round(rng.uniform(0.1, 1.0), 2)])] + [round(rng.uniform(0.5, rmax * 0.8), rng.choice([1, 2, 3])) for _ in range(n - 1)]))
     parts = [[rng.choice(MARKERS), s, gen_node(rng, depth - 1, route, reg0, False, smooth, forms, tables, kinds, rmax, no_ranges=(route == "potable"))] for s in starts]
     rng.shuffle(parts) if rng.random() < 0.2 else None
     return {"k": "ranges", "parts": parts}
@@ -767,3 +772,24 @@ def rename_symbols(model, mapping):
     for ent in m.get(key) or []:
       rnode(ent[-1])
   return m
+
+
+def gen_nested_same_start(rng, reg0=True):
+  """A modifier whose argument is a range '>X' / '>=X' around another modifier, one of whose own arguments
+  starts at the same X with the other marker: at r == X exactly the two levels disagree about who acts."""
+  X = rng.choice([0.0, 0.5, 1.0, 1.5, 2.0])
+  m_outer, m_inner = rng.choice([(">", ">="), (">=", ">"), (">", ">"), (">=", ">=")])
+  leaf = lambda: gen_form(rng, reg0=True, names=["constant", "polynomial", "morse", "bornmayer"])
+  inner_args = [{"k": "ranges", "parts": [[m_inner, X, leaf()]]}, {"k": "ranges", "parts": [[rng.choice(MARKERS), rng.choice([X, X + 0.5]), leaf()]]}]
+  if rng.random() < 0.5:
+    inner_args.append(leaf())
+  rng.shuffle(inner_args)
+  inner = {"k": rng.choice(["sum", "product", "sum"]), "a": inner_args}
+  wrapped = {"k": "ranges", "parts": [[m_outer, X, inner]]}
+  others = [{"k": "ranges", "parts": [[">=", min(X, 0.0), leaf()]]}]
+  if rng.random() < 0.5:
+    others.append(leaf())
+  args = [wrapped] + others
+  pos = rng.randrange(len(args))
+  args[0], args[pos] = args[pos], args[0]
+  return {"k": rng.choice(["sum", "product", "sum"]), "a": args}, X
